@@ -124,6 +124,29 @@ def getOrCreateColl (st : State) (n : Nat) (f : Fam) : Option State :=
   | some f' => if f' = f then some st else none
   | none => if st.registered n then none else some { st with colls := st.colls ++ [(n, f)] }
 
+/-- `GetOrCreate*Collector` cut in two, the way it would run if the vault lock were NOT held from the
+lookup to the store: first the lookup in `collectors` … -/
+def lookupColl (st : State) (n : Nat) : Option Fam := st.colls.lookup n
+
+/-- … and, after a lookup that found nothing, `Register` + store: `Register` fails when the name has
+been taken in the registry in the meantime (the operation is then dropped with a log line). -/
+def registerColl (st : State) (n : Nat) (f : Fam) : Option State :=
+  if st.registered n then none else some { st with colls := st.colls ++ [(n, f)] }
+
+/-- `LabelValues(labels, c.labelNames)`: the value of every label name of the collector, "" (0) for a
+name the series does not carry. -/
+def labelValues (names : List Nat) (l : Labels) : List Nat :=
+  names.map fun k => (l.lookup k).getD 0
+
+/-- What `HashLabelValues` writes to the fnv hasher: every label value (its bytes) followed by the
+separator byte 255 — empty values included. -/
+def hashInput (vals : List (List Nat)) : List Nat := vals.flatMap (· ++ [255])
+
+/-- the same with empty values skipped (NOT the code: kept for the witness that this would let two
+series that differ only in which label is empty share one entry). -/
+def hashInputSkipEmpty (vals : List (List Nat)) : List Nat :=
+  (vals.filter (· ≠ [])).flatMap (· ++ [255])
+
 /-- `ConstGaugeCollector.Set` / `ConstCounterCollector.Add` on the flat collection: an entry with
 these label values is updated *whatever group owns it* and keeps its group; otherwise a new entry
 owned by `g` is stored. `upd old v` is the new value. -/
